@@ -212,6 +212,20 @@ Check C04_known_classes_refute :
   refutes (fst w_refname) (snd w_refname) known_C04_fk_lost_by_ref_name /\
   refutes (fst w_reflater) (snd w_reflater) known_C04_reference_added_later.
 
+(* one more class (found after the generator learnt to shadow inline foreign keys): the inline constraint of an added
+   column is promoted into the baseline by replay but no statement ever creates it *)
+Theorem C04_inline_orphan_refutes : refutes (fst w_orphan) (snd w_orphan) known_C04_inline_orphan.
+Proof. exact w_orphan_refutes. Qed.
+Print Assumptions C04_inline_orphan_refutes.
+Check C04_inline_orphan_refutes : refutes (fst w_orphan) (snd w_orphan) known_C04_inline_orphan.
+
+Theorem C04_constraint_added_twice_refutes : refutes (fst w_twice) (snd w_twice) known_C04_derived_name_collision
+  /\ migration_error (fst w_twice) (snd w_twice) = Some "M4a duplicate key name (1061)".
+Proof. exact w_twice_refutes. Qed.
+Print Assumptions C04_constraint_added_twice_refutes.
+Check C04_constraint_added_twice_refutes : refutes (fst w_twice) (snd w_twice) known_C04_derived_name_collision
+  /\ migration_error (fst w_twice) (snd w_twice) = Some "M4a duplicate key name (1061)".
+
 (* D18 on MySQL: the shrunk key keeps its name, the baseline derives another one *)
 Theorem C04_composite_member_name_drift :
   match run (catalog_of (fst w_d18)) [SDropColumn "t" "b"], apply_action (fst w_d18) (DeleteColumn "t" "b") with
